@@ -122,6 +122,17 @@ static void work_crypted(long lo, long hi, struct res *r, void *arg) {
 int main(int argc, char **argv) {
     int a = common_args(argc, argv);
     ref_init(VERIF_ROOT); sec_mark_initial(); env_init(); inject(0);
+    /* the default configuration (no enabling call made in this process yet): images without user features load, the encrypted flag included;
+     * images with a user feature or the reserved bit are refused as unsupported */
+    struct res *r0 = calloc(1, sizeof *r0);
+    { rseed b; memset(&b, 0, sizeof b); for (int i = 0; i < 19; i++) b.secret[i] = (uint8_t)(0x51 + 3 * i); b.secret[18] &= 0x3F; b.birthday = 77;
+      static const unsigned F[] = { 0, 16, 1, 4, 17, 8, 24 };
+      for (unsigned q = 0; q < sizeof F / sizeof *F; q++) { b.features = F[q]; uint8_t img[32], back[32]; ref_storage(&b, img); polyseed_data *d = NULL; int st = polyseed_load(img, &d), want = ref_load(img, 0, NULL); r0->cases++; r0->calls++;
+          memset(back, 0, 32); if (st == POLYSEED_OK) { polyseed_store(d, back); polyseed_free(d); }
+          char rep[120], h[65]; hex(img, 32, h); snprintf(rep, sizeof rep, "case %s 0", h);
+          if (st != want || (st == POLYSEED_OK && memcmp(back, img, 32))) res_viol(r0, "c06:default-config", rep, "before any enabling call was made in the process: load of an image with feature bits %u returned %d, reference predicate %d", F[q], st, want);
+          else { r0->validated++; if (st >= 0 && st < 8) r0->cls[st]++; } }
+      res_sample(r0, "images with feature bits 0, 16, 1, 4, 17, 8, 24 loaded before polyseed_enable_features was ever called"); }
     struct res *r = calloc(1, sizeof *r);
     if (a < argc && !strcmp(argv[a], "case")) {
         uint8_t b[32]; unhexn(argv[a + 1], b, 32); unsigned mask = atoi(argv[a + 2]);
@@ -141,6 +152,7 @@ int main(int argc, char **argv) {
         ref_storage(&s, IMG[k]);
     }
     out_begin();
+    out_part("default configuration: images loaded before any enabling call", r0, CLS, "");
     for (FAM = 0; FAM < F_N; FAM++) {
         if ((FAM == F_FLIP3 || FAM == F_BYTEPAIR) && !G_thorough) continue;
         int nk = (FAM == F_FLIP3 || FAM == F_BYTEPAIR) ? 1 : (FAM == F_B28CHK || FAM == F_FOOT) ? (NK < 4 ? NK : 4) : NK;
